@@ -6,6 +6,7 @@
   are the ones the source uses (extracted).  Invariant: `Proofs/MemModel`.
 -/
 import CstModel.Proofs.MemModel
+import CstModel.Proofs.MemSlots
 import CstModel.Generated.SourceFacts
 namespace Cst.C07
 open Cst.Mem
@@ -81,6 +82,57 @@ theorem no_access_after_teardown (s : Sys) (h : Reachable ords s) (ht : s.torn =
     have := torn_blocks hinv ht t n hn
     subst this
     simp
+
+/-! ### the child slots: locks, and references that outlive the lock -/
+
+/-- **instantiation**: `read` takes the slot's lock shared, `try_write` and the teardown take it
+    exclusively, a candidate is installed only into an empty slot, and these three are the only places
+    that touch a slot cell -/
+theorem slot_facts :
+    SourceFacts.slotReadUnderReadLock = true ∧ SourceFacts.slotWriteUnderWriteLock = true ∧
+    SourceFacts.teardownUnderWriteLock = true ∧ SourceFacts.slotInstallOnlyIfEmpty = true ∧
+    SourceFacts.slotCellAccessSites = 3 ∧ SourceFacts.slotAssignments = 2 := by decide
+
+/-- **no access to a child slot races** — for every interleaving of any number of threads cloning,
+    dropping and handing over handles, reading slots under the read lock, installing into empty slots
+    or losing the race under the write lock, dereferencing elements through references obtained
+    earlier (outside any lock), and the final teardown writing every slot: each access is ordered
+    (lock clock, counter release sequence, hand-over) after every conflicting earlier access -/
+theorem slot_accesses_race_free (s : MemS.Sys) (h : MemS.Reachable ords s) : s.raced = false :=
+  (MemS.inv_reachable facts_ok.1 facts_ok.2.1 h).noRace
+
+/-- a reference into a slot is only ever used by a thread that has synchronised with the write that
+    filled the slot -/
+theorem reference_sees_install (s : MemS.Sys) (h : MemS.Reachable ords s) (ht : s.torn = false) (t sl : Nat)
+    (hk : sl ∈ s.knows t) :
+    s.slots[sl]? = some true ∧ ∀ a ∈ s.acc, a.loc = sl → a.wr = true → a.thr = t ∨ a.ep ≤ s.C t a.thr :=
+  (MemS.inv_reachable facts_ok.1 facts_ok.2.1 h).known ht t sl hk
+
+/-- creation race on slot 0 between threads 0 and 1 (1 wins), thread 1 hands a handle to thread 2 which
+    uses the element without ever taking the lock; everybody drops, thread 0 last -/
+def slotScenario (O : Ords) : Option MemS.Sys := do
+  let s ← MemS.step O (MemS.Sys.init [1, 0, 0] 1) 0 .clone
+  let s ← MemS.step O s 0 (.send 1)
+  let s ← MemS.step O s 0 (.rdSlot 0)          -- miss
+  let s ← MemS.step O s 1 (.rdSlot 0)          -- miss
+  let s ← MemS.step O s 1 (.wrSlot 0)          -- installs
+  let s ← MemS.step O s 0 (.loseSlot 0)        -- loses
+  let s ← MemS.step O s 1 .clone
+  let s ← MemS.step O s 1 (.send 2)
+  let s ← MemS.step O s 2 (.useElem 0)
+  let s ← MemS.step O s 2 .drop
+  let s ← MemS.step O s 1 (.useElem 0)
+  let s ← MemS.step O s 1 .drop
+  MemS.step O s 0 .drop
+
+example : (match slotScenario ords with
+    | some s => s.torn && !s.raced && s.acc.length == 7
+    | none => false) = true := by decide
+/-- with a relaxed decrement the same history races (the teardown's writes against the uses) -/
+theorem slot_scenario_relaxed_races :
+    (match slotScenario ⟨true, true, false, false⟩ with
+     | some s => s.torn && s.raced
+     | none => false) = true := by decide
 
 /-! ### why the orderings matter: weaker decrements race -/
 
